@@ -177,5 +177,88 @@ def run(repo='/repo', tier='quick'):
             creates = [xb for xb, xi, c in tc.calls('htp_tx_create')]
             okc = all(cb in dom[xb] for xb in creates)
     res.check(okc, 'C04.d', 'htp_connp_tx_create:PIPELINED:on-every-creation', 'every creation passes the pipelining test first', 'a transaction can be created without passing the pipelining test', tc.loc)
+    c04e(db, res)
+    c04f(db, res)
     res.assumptions.append('values (ids inside request i and response i) are not tracked; only the counter/list discipline that pairing rests on')
     return res
+
+
+def c04e(db, res):
+    """An interim 100 (no Transfer-Encoding, no positive Content-Length) never ends the transaction: the next response
+    must still pair with the same request, so every such path goes back to the status-line state."""
+    res.rule('C04.e', 'interim 100: in RES_BODY_DETERMINE every feasible path with status == 100, no Transfer-Encoding and no positive Content-Length stores the status-line state into out_state and returns (the transaction stays open for the final response)')
+    f = db.get('htp_connp_RES_BODY_DETERMINE')
+    te, cl = P.table_lookup_local(f, 'transfer-encoding'), P.table_lookup_local(f, 'content-length')
+    if not te or not cl:
+        raise AnalysisBroken('C04.e: the transfer-encoding / content-length lookups of htp_connp_RES_BODY_DETERMINE were not found')
+    start = db.get('htp_tx_state_response_start')
+    line_states = {S(x['r']) for b, i, x in P.field_writes(start, 'out_state') if x['k'] == 'assign'}
+    # the interim test: a block testing te == NULL whose own facts include status == 100; B = its true successor, J = where the false edge goes
+    tests = [b for b in f.blocks if f.cond_of(b) and P.canon(f.cond_of(b)[0]) == (te, '==', '0')
+             and any(a[0].endswith('response_status_number') and a[1] == '==' and a[2] == '100' for a, e in P.facts_at(f, b))]
+    if len(tests) != 1:
+        raise AnalysisBroken('C04.e: expected one `status == 100 && %s == NULL` test in htp_connp_RES_BODY_DETERMINE, found %d' % (te, len(tests)))
+    B, J = f.blocks[tests[0]]['succs'][0], f.blocks[tests[0]]['succs'][1]
+    n, nrestart, bad = 0, 0, None
+    for atoms, events, end, seq in P.enum_paths_seq(f, (B, -1), stop=lambda bb, ii, st: bb == J, max_paths=50000):
+        facts = [a for a, bb in atoms]
+        nocl = (cl, '==', '0') in facts or any(a[0].startswith('htp_parse_content_length(') and a[1] == '<=' and a[2] == '0' for a in facts)
+        if not nocl or not P.feasible(f, facts) or not P.flag_feasible(f, seq):
+            continue
+        n += 1
+        restart = any(x[0] == 'stmt' and any(w['k'] == 'assign' and S(w['r']) in line_states for w in P.assigns_field(x[3], 'out_state')) for x in seq)
+        if restart and end[0] == 'return':
+            nrestart += 1
+        elif end[0] != 'loop':
+            bad = end
+    res.check(bad is None and nrestart > 0, 'C04.e', 'htp_connp_RES_BODY_DETERMINE:interim-100-restarts', 'all %d feasible interim-100 paths go back to the status-line state (%d through the restart return)' % (n, nrestart),
+              'a path with status 100, no Transfer-Encoding and no positive Content-Length goes on to the body decision instead of back to the status line: the interim response would complete the transaction and the final response would be paired with the next request', (bad[3]['loc'] if bad and len(bad) > 3 else f.loc))
+
+
+def linform(e):
+    """linear form {term: coef, '': const} of an integer expression built from + - and literals; None otherwise"""
+    e = strip(e)
+    if e is None:
+        return None
+    k = e.get('k')
+    if k == 'lit':
+        return {'': e['v']}
+    if k in ('var', 'member'):
+        return {P.K(e): 1}
+    if k == 'bin' and e['op'] in ('+', '-'):
+        l, r = linform(e['l']), linform(e['r'])
+        if l is None or r is None:
+            return None
+        out = dict(l)
+        for t, c in r.items():
+            out[t] = out.get(t, 0) + (c if e['op'] == '+' else -c)
+        return {t: c for t, c in out.items() if c != 0}
+    return None
+
+
+def c04f(db, res):
+    """The transaction list is a ring over max_size slots: htp_list_array_get(l, idx), which is how the response side finds
+    transactions[out_next_tx_index], must address slot (first + idx) mod max_size."""
+    res.rule('C04.f', 'ring addressing of the transaction list: in htp_list_array_get the arm taken under A < max_size reads elements[A] and the other arm reads elements[A - max_size], with A = first + idx; htp_list_array_replace uses (first + idx) % max_size')
+    f = db.get('htp_list_array_get')
+    want = {'l->first': 1, 'idx': 1}
+    n = 0
+    for b, i, st in f.stmts():
+        for x in nodes(st, lambda y: y.get('k') == 'index' and P.member_field(y['base']) == 'elements'):
+            n += 1
+            lf = linform(x['idx'])
+            facts = [a for a, e in P.facts_at(f, b)]
+            g = [a for a in facts if 'max_size' in a[0] or 'max_size' in a[2]]
+            lo = any(a == ('(l->first + idx)', '<', 'l->max_size') for a in facts)
+            hi = any(a == ('(l->first + idx)', '>=', 'l->max_size') for a in facts)
+            ok = (lo and lf == want) or (hi and lf == dict(want, **{'l->max_size': -1}))
+            res.check(ok, 'C04.f', 'htp_list_array_get:elements[%s]' % ('A' if lo else 'A-max_size' if hi else '?'), 'slot agrees with the guard (%s)' % (g[-1:] or '?'),
+                      'htp_list_array_get reads elements[%s] under %s: that is not slot (first + idx) mod max_size, so once the list has wrapped (transactions recycled with htp_connp_tx_freed) a response is attached to the wrong transaction' % (S(x['idx']), g[-1:] or 'no guard on first + idx'), x['loc'])
+    res.floor('C04.f', 'element reads in htp_list_array_get', n, 2)
+    r = db.get('htp_list_array_replace')
+    for b, i, st in r.stmts():
+        for x in nodes(st, lambda y: y.get('k') == 'index' and P.member_field(y['base']) == 'elements'):
+            e = strip(x['idx'])
+            ok = e is not None and e.get('k') == 'bin' and e['op'] == '%' and linform(e['l']) == want and P.K(e['r']) == 'l->max_size'
+            res.check(ok, 'C04.f', 'htp_list_array_replace:elements[(first+idx)%max_size]', 'slot is (first + idx) % max_size',
+                      'htp_list_array_replace writes elements[%s]: not slot (first + idx) mod max_size (htp_conn_remove_tx would NULL the wrong transaction slot)' % S(x['idx']), x['loc'])
